@@ -14,6 +14,8 @@ try:
             sys.exit('patch does not apply')
     else:
         f, old, new = sys.argv[2:5]
+        if os.path.isabs(f):
+            sys.exit('FILE must be relative to metric_learn/')
         p = os.path.join(td, 'metric_learn', f)
         raw = open(p, 'rb').read().decode()
         crlf = '\r\n' in raw
